@@ -139,6 +139,16 @@ Fixpoint scan_osc_payload (inp : list Z) (acc : list Z) : option (list Z * list 
            end
   end.
 
+(* a string that is not a known command: skipped up to BEL, 0x9C or ESC \ ; [prev] is the byte before *)
+Fixpoint scan_str (inp : list Z) (prev : Z) : option (list Z) :=
+  match inp with
+  | [] => None
+  | b :: rest =>
+      if (b =? 7) || (b =? 156) then Some rest
+      else if (prev =? 27) && (b =? 92) then Some rest
+      else scan_str rest b
+  end.
+
 Definition parse_osc (inp : list Z) : pres :=
   match scan_digits inp 0 with
   | None => PMore
@@ -149,7 +159,10 @@ Definition parse_osc (inp : list Z) : pres :=
         | Some (payload, rest') => PTok (TOsc num payload) rest'
         end
       else if (b =? 7) || (b =? 156) then PTok (TOsc num []) rest
-      else PTok TIgnore rest
+      else match scan_str rest b with
+           | None => PMore
+           | Some rest' => PTok TIgnore rest'
+           end
   end.
 
 (* ---- DCS: skipped up to 0x9C or ESC \ ---- *)
